@@ -361,6 +361,14 @@ func (e *Engine) modelWrites(f *ssa.Function, call *ssa.CallCommon, set map[stri
 		set["H|*"] = true
 	case "runtime.ReadMemStats":
 		set["H|runtime.MemStats|*"] = true
+	case "(*encoding/gob.Decoder).Decode":
+		set["G|gob|pos"] = true
+		set["H|TraitEntry|*"] = true
+		set["H|TraitEntryOf[V]|*"] = true
+		set["E|byte|*"] = true
+		set[allocName] = true
+	case "(*encoding/gob.Encoder).Encode":
+		set["G|gob|*"] = true
 	case "sort.Slice":
 		set["H|*"] = true
 		set["E|*"] = true
